@@ -6,7 +6,9 @@
 // Several tenants (= MetaStoreFactory instances with different root paths) share ONE backend.
 // Every step is one call of a server/store meta operation (meta_op.go) or of a store primitive the
 // server calls directly (Create's Put, GetPosition's Get, ReplicateMeteImpl's store calls).  A decorator
-// around the factory fails the k-th store call of the step (before or after delegating).  After EVERY
+// around the factory fails the k-th store call of the step (before or after delegating).  Collection ids are
+// taken from the plan as they are: positive ids, 0 (the code's wildcard) and the reserved non-positive ids
+// the server uses (-10 = model.ReplicateCollectionID, -1 = model.TmpCollectionID).  After EVERY
 // step the whole backend is dumped (etcd: range read of all keys; sqlfake: all rows of all tables),
 // decoded and logged.  The driver computes nothing about what the state should be.
 package main
@@ -491,6 +493,14 @@ func runPlan(p *hx.Plan) []hx.Event {
 			case "getPos": // MetaCDC.GetPosition / startInternal
 				var ps []*meta.TaskCollectionPosition
 				if ps, err = posS.Get(ctx, &meta.TaskCollectionPosition{TaskID: task}, nil); err == nil {
+					n = len(ps)
+					for _, x := range ps {
+						recs = append(recs, projPos(x))
+					}
+				}
+			case "getPosC": // the store's Get(task, collection): what the update / drop-mark operations read
+				var ps []*meta.TaskCollectionPosition
+				if ps, err = posS.Get(ctx, &meta.TaskCollectionPosition{TaskID: task, CollectionID: coll}, nil); err == nil {
 					n = len(ps)
 					for _, x := range ps {
 						recs = append(recs, projPos(x))
